@@ -1,6 +1,6 @@
 """C11 — decoding is independent of arrival order and of surplus shards (bookkeeping part)."""
 import re
-from . import core, resetrules, c12, c05
+from . import core, resetrules, c12, c05, roles as roles_mod
 from .core import hcanon, hshow
 
 EXPLANATION = (
@@ -46,16 +46,18 @@ def add_effects(ctx, facts, cfg):
         ctx.violation(R, 'anchor-missing', 'anchor missing: %s' % WORK, fn=WORK, cfg=cfg)
         return
     ftypes = {fl['name']: fl['ty'] for v in adt['variants'] for fl in v['fields']}
-    pr = set(resetrules.per_round_fields(facts, WORK))
+    RL = roles_mod.roles(facts)
+    pr = {RL.fields['dec'].get(f, f) for f in resetrules.per_round_fields(facts, WORK)}
     for kind in ('original', 'recovery'):
-        p = '%s::add_%s_shard' % (WORK, kind)
-        fn = ctx.anchor(facts, p, R)
+        fn = RL.get(ctx, 'dec.add_%s' % kind, R, cfg)
         if fn is None:
             continue
+        p = fn.path
         body = fn.body
+        N = lambda c: RL.norm(core.strip_var_ids(c), p)
         ws = resetrules.write_sites(facts, p)
         problems = []
-        store = [w for w in ws if 'Shards' in ftypes.get(w[0], '')]
+        store = [w for w in ws if ftypes.get(w[0], '') == RL.store_adt]
         bits = [w for w in ws if 'FixedBitSet' in ftypes.get(w[0], '')]
         ctrs = [w for w in ws if ftypes.get(w[0]) == 'usize']
         others = [w for w in ws if w not in store and w not in bits and w not in ctrs]
@@ -70,10 +72,10 @@ def add_effects(ctx, facts, cfg):
             if sw[1] != 'call' or len(st['args']) < 3:
                 problems.append('shard store is not written by one insert(pos, shard) call')
             else:
-                pos1 = body.canon_op(st['args'][1])
-                if c05.lin(core.strip_var_ids(pos1)) != want_pos:
+                pos1 = N(body.canon_op(st['args'][1]))
+                if c05.lin(pos1) != want_pos:
                     problems.append('shard is stored at %s, expected self.%s_base_pos + index' % (core.show(pos1), kind))
-                data = body.canon_op(st['args'][2])
+                data = N(body.canon_op(st['args'][2]))
                 names = set()
                 collect(data, names)
                 bad = names - {'%s_shard' % kind, 'index'}
@@ -85,14 +87,15 @@ def add_effects(ctx, facts, cfg):
             if bw[1] != 'call' or not re.search(r'FixedBitSet::(set|insert|put)$', bw[2] or ''):
                 problems.append('bitmap is written by %s, expected FixedBitSet::set(pos, true)' % bw[2])
             else:
-                pos2 = body.canon_op(bt['args'][1])
-                if c05.lin(core.strip_var_ids(pos2)) != want_pos:
+                pos2 = N(body.canon_op(bt['args'][1]))
+                if c05.lin(pos2) != want_pos:
                     problems.append('bit set at %s, expected self.%s_base_pos + index' % (core.show(pos2), kind))
                 if (bw[2] or '').endswith('::set') and body.canon_op(bt['args'][2]) != ('const', 1):
                     problems.append('bit is not set to true')
-            if cw[0] != '%s_received_count' % kind:
+            crole = RL.fields['dec'].get(cw[0], cw[0])
+            if crole != '%s_received_count' % kind:
                 problems.append('counter written is %s, expected %s_received_count' % (cw[0], kind))
-            elif cw[1] != 'assign' or core.strip_var_ids(cw[2]) != core.norm_bin('Add', ('field', ('deref', ('param', 'self')), cw[0]), ('const', 1)):
+            elif cw[1] != 'assign' or N(cw[2]) != core.norm_bin('Add', ('field', ('deref', ('param', 'self')), crole), ('const', 1)):
                 problems.append('counter update is %s, expected += 1' % (core.show(cw[2]) if cw[1] == 'assign' else cw[2]))
             # all three on the Ok path: each write block dominates every Ok exit, and Ok exit reachable
             errs, oks = core.result_exits(body)
@@ -127,7 +130,8 @@ def mentions_fields(c, fields):
 
 def decoder_inputs(ctx, facts, cfg):
     R = 'C11.b-decoder-inputs'
-    db = ctx.anchor(facts, WORK + '::decode_begin', R)
+    RL = roles_mod.roles(facts)
+    db = RL.get(ctx, 'dec.begin', R, cfg)
     if db is None:
         return
     # payload of Some(..): (as_ref_mut(shards), original_count, recovery_count, &received)
@@ -145,7 +149,7 @@ def decoder_inputs(ctx, facts, cfg):
             flds = []
             for x in elems:
                 fs = set()
-                fields_of(x, fs)
+                fields_of(RL.norm(x, db.path), fs)
                 flds.append(sorted(fs))
             if flds == [['shards'], ['original_count'], ['recovery_count'], ['received']]:
                 okp = True
@@ -156,7 +160,7 @@ def decoder_inputs(ctx, facts, cfg):
         ctx.ok(R, 'decode_begin-payload@%s' % cfg, {'payload': '(shards, original_count, recovery_count, &received)'})
     elif not somes:
         ctx.violation(R, 'decode-begin-payload', 'no Some(..) payload found in decode_begin', site=db.span, fn=db.path, cfg=cfg)
-    allowed = {WORK + '::decode_begin', WORK + '::undo_last_chunk_encoding', "decoder_result::DecoderResult::<'a>::new"}
+    allowed = {RL.fn.get('dec.begin'), RL.fn.get('dec.undo'), "decoder_result::DecoderResult::<'a>::new"}
     n = 0
     for p, fn in sorted(facts.fns.items()):
         if fn.impl_trait == 'rate::RateDecoder' and fn.name == 'decode' and not (fn.impl_self_adt or '').startswith('rate::rate_default'):
@@ -189,7 +193,8 @@ def fields_of(c, out):
 
 def shortcut(ctx, facts, cfg):
     R = 'C11.d-all-present-shortcut'
-    db = ctx.anchor(facts, WORK + '::decode_begin', R)
+    RL = roles_mod.roles(facts)
+    db = RL.get(ctx, 'dec.begin', R, cfg)
     if db is None:
         return
     tails = []
@@ -199,7 +204,7 @@ def shortcut(ctx, facts, cfg):
         v = hcanon(x, env)
         # Ok(None)
         if v[0] == 'call' and str(v[1]).endswith('::Ok') and v[2] and v[2][0][0] == 'def' and str(v[2][0][1]).endswith('::None'):
-            atoms = core.flatten_conds(conds, env)
+            atoms = [(RL.norm(c, db.path), p) for c, p in core.flatten_conds(conds, env)]
             from .c06 import cmp_atom
             cm = [cmp_atom(c, p) for c, p in atoms]
             cm = [c for c in cm if c]
@@ -218,7 +223,7 @@ def shortcut(ctx, facts, cfg):
             lets = core.hir_find(fn.hir['value'], lambda n: n.get('k') == 'let' and 'else' in n)
             okk = False
             for (n, _) in lets:
-                if not core.hir_find(n.get('init'), lambda m: m.get('k') == 'mcall' and (m.get('path') or '').endswith('::decode_begin')):
+                if not core.hir_find(n.get('init'), lambda m: m.get('k') == 'mcall' and m.get('path') == RL.fn.get('dec.begin')):
                     continue
                 eb = n['else']
                 calls = core.hir_find(eb, lambda m: m.get('k') in ('call', 'mcall'))
